@@ -280,10 +280,15 @@ func errAssignedOnBadSide(f *ir.Func, errObj types.Object, bad *cfgx.Edge) bool 
 	return !leak
 }
 
+// syncerView returns f with the unexported helpers of package syncer expanded.
+func syncerView(c *Ctx, f *ir.Func) *ir.Func {
+	return c.P.Views("syncer", ir.ExpandOpt{Key: "all"}).Of(f)
+}
+
 func c11r2(c *Ctx) {
 	// SendCheckpoint
 	{
-		f := c.P.Fn("syncer", "Peer", "SendCheckpoint")
+		f := syncerView(c, c.P.Fn("syncer", "Peer", "SendCheckpoint"))
 		g := f.Graph()
 		c.VisitGraph(f)
 		// the err variable returned
@@ -329,7 +334,11 @@ func c11r2(c *Ctx) {
 				isField := func(x ast.Expr) bool { return strings.HasSuffix(ir.ExprString(x), "V2.Commitment") }
 				isCall := func(x ast.Expr) bool {
 					call, ok := ast.Unparen(x).(*ast.CallExpr)
-					return ok && f.Callee(call) != nil && f.Callee(call).Name() == "Commitment" && strings.Contains(ir.ExprString(call.Fun), "State")
+					if !ok || f.Callee(call) == nil || f.Callee(call).Name() != "Commitment" {
+						return false
+					}
+					sel, ok := ast.Unparen(call.Fun).(*ast.SelectorExpr)
+					return ok && ir.IsNamed(f.TypeOf(sel.X), ir.CoreMod+"/consensus", "State")
 				}
 				return (isField(be.X) && isCall(be.Y)) || (isField(be.Y) && isCall(be.X))
 			}, "the supplied state is not bound to the checkpoint block's commitment: every field of the state against which later blocks are validated is peer-controlled"},
